@@ -28,6 +28,9 @@ def main():
             specs = [data['spec']] if data.get('spec') is not None else []
             rep.write_evidence = False
             mod.check(rep, a.tier, seed, specs=specs)
+            # a single replayed case cannot satisfy the tier's minimum-coverage conditions; only lost cases stay inconclusive
+            rep.inconclusive = [x for x in rep.inconclusive if 'lost' in x]
+            rep.min_nontrivial = 0
         else:
             mod.check(rep, a.tier, seed, n_override=a.n)
         rc = rep.finish()
